@@ -4,3 +4,4 @@ import QeepProps.C04
 import QeepProps.C06
 import QeepProps.C08
 import QeepProps.C10
+import QeepProps.C14
